@@ -79,6 +79,27 @@ def check_single(a):
         raise Violation('equal to a foreign object', signature='C12:foreign')
     if not (a == a) or (a != a) or (a < a) or not (a <= a):
         raise Violation('reflexivity', signature='C12:reflexive')
+    # a foreign object without name/module that implements its own (in)equality: the interface must defer to it
+    # (__eq__/__ne__ return NotImplemented), so that != stays the negation of == and reflected comparisons agree
+    h = _Handle()
+    if type(a).__name__ == 'InterfaceClass':
+        if (a == h) is not True or (a != h) is not False or (h == a) is not True or (h != a) is not False:
+            raise Violation('interface vs an object with its own __eq__/__ne__: == gives %r, != gives %r (reflected %r / %r); '
+                            '!= must be the negation of ==' % (a == h, a != h, h == a, h != a), signature='C12:foreign-eq')
+
+
+class _Handle:
+    __slots__ = ()
+    __hash__ = None
+
+    def __eq__(self, other):
+        return True
+
+    def __ne__(self, other):
+        return False
+
+    def __getattr__(self, name):
+        raise AttributeError(name)
 
 
 class _HashStub:
